@@ -259,8 +259,41 @@ def w_dataset(case):
                          'dataset does not reproduce the dose rows of individual '
                          '%s' % key, 'expected': exp, 'observed': got,
                          'behaviour': 'dataset_rows'})
-    return {'transitions': 2, 'outcome': tol.rnd(
-        [[(e.start(), e.level()) for e in regs[k].events()] for k in sorted(regs)]),
+    # the likelihood built for each individual applies that individual's dose rows
+    # (individuals are visited in data order and in reverse: the controller re-uses
+    # one mechanistic model for all of them)
+    import pints
+    ctrl.set_log_prior(pints.ComposedLogPrior(*[
+        pints.UniformLogPrior(0, 10) for _ in range(ctrl.get_n_parameters())]))
+    x = [0.3, 1.4, 0.8, 0.5]
+    order = [str(i['id']) for i in case['inds']]
+    vals_seen = {}
+    for key in order + order[::-1]:
+        ind = [i for i in case['inds'] if str(i['id']) == key][0]
+        post = ctrl.get_log_posterior(key)
+        ll = post.get_log_likelihood()
+        got = ll(x)
+        f = chi.library.ModelLibrary().one_compartment_pk_model()
+        f.set_administration('central', direct=True)
+        p = myokit.Protocol()
+        for t, dose, dur in ind['doses']:
+            d = 0.01 if (dur is None or not case['duration_column']) else dur
+            p.add(myokit.ProtocolEvent(dose / d, t, d))
+        f.set_dosing_regimen(p)
+        ref_ll = chi.LogLikelihood(
+            f, chi.GaussianErrorModel(), [v for _, v in ind['obs']],
+            [t for t, _ in ind['obs']])
+        exp = ref_ll(x)
+        if not tol.close(got, exp, 1e-6, 1e-8):
+            viol.append({'sub': 'applied', 'message': 'the likelihood of an '
+                         'individual does not apply that individual\'s own dose '
+                         'rows (visited %s)' % (order + order[::-1]),
+                         'individual': key, 'expected': exp, 'observed': got,
+                         'behaviour': 'dataset_applied'})
+        vals_seen[key] = got
+    return {'transitions': 2 + 4 * len(order), 'outcome': tol.rnd(
+        [[(e.start(), e.level()) for e in regs[k].events()] for k in sorted(regs)]
+        + [vals_seen[k] for k in sorted(vals_seen)]),
         'violations': viol}
 
 
